@@ -241,7 +241,7 @@ def crafted_events(tracer_cls, tkw, ice, antennas, rng):
         if case in (1, 5):
             p2 = pyrex.Particle('nu_mu', vertex + np.array([5.0, 5.0, -20.0]), direction, 1e8, interaction_type='nc')
             p2.interaction.em_frac, p2.interaction.had_frac = 0.0, 0.5
-            p2.survival_weight, p2.interaction_weight = (0.2, 1.0) if case == 1 else (1.0, 1.0)
+            p2.survival_weight, p2.interaction_weight = (0.2, 1.0) if case == 1 else (1.0, 0.4)
             parts.append(p2)
         if case == 3:
             p1.survival_weight = 0.2                                # below the weight cut
